@@ -85,7 +85,7 @@ def gen_history(rng, remote_ok):
         if r < 0.35:
             n = rng.randint(0, 6)
             poison = rng.random() < 0.25
-            h.append(('run', [rng.randint(0, 9) for _ in range(n)] + ([-1] if poison else [])))
+            h.append(('run', [rng.randint(0, 9) for _ in range(n)] + ([rng.choice([-1, -2])] if poison else [])))
         elif r < 0.5:
             h.append(('restart',) if rng.random() < 0.6 else ('restart', 'noforce'))
         elif r < 0.62:
@@ -185,7 +185,7 @@ def run_history(hist, sess):
                         got = sorted(r.partial_results or [])
                         if not set(got) <= {x * x for x in inputs if x >= 0}:
                             fails.append(('partial-results-foreign', f'run({inputs}): partial results {got} contain values of other runs', step))
-                        if any(w.is_alive() and w not in stuck for w in pool.workers) and -1 not in inputs:
+                        if any(w.is_alive() and w not in stuck for w in pool.workers) and min(inputs, default=0) >= 0:
                             fails.append(('poolerror-with-live-workers', f'run({inputs}) raised PoolError although usable workers are alive', step))
                     elif r is not None:
                         exp = sorted(x * x for x in inputs if x >= 0)
@@ -290,6 +290,9 @@ def main(ctx: Ctx):
         [('add', 'process', 'ok'), ('add', 'process', 'registration-fails'), ('run', [1, 2]), ('exit', 'close')],
         [('add', 'process', 'ok'), ('add', 'process', 'ok'), ('run', [1, 2]), ('stuck', 1), ('restart', 'noforce'), ('exit', 'normal')],
         [('add', 'process', 'ok'), ('add', 'process', 'ok'), ('run', [0, 0, -1]), ('restart',), ('run', [1, 2, 4]), ('exit', 'terminate')],
+        # a restarted worker is SIGKILLed in the middle of a run (no end marker): the run must still come to an end
+        [('add', 'process', 'ok'), ('add', 'process', 'ok'), ('add', 'process', 'ok'), ('restart',), ('run', [1, -2, 3]), ('exit', 'normal')],
+        [('add', 'process', 'ok'), ('add', 'process', 'ok'), ('run', [5, -2]), ('exit', 'close')],
     ]
     hists += [gen_history(rng, remote_ok=(i % 4 == 0)) for i in range(8 if not T else 80)]
     sess = inject.Session()
